@@ -520,4 +520,36 @@ MUTANTS = [
            "R3.index-compared-to-positions"),
     Mutant("bondlist-copy-shared", BONDS, "clone._bonds = self._bonds.copy()", "clone._bonds = self._bonds", "R2.fresh"),
     Mutant("concat-placeholder", ATOMS, "else BondList(element.array_length())", "else BondList(0)", "R1.bond-offsets"),
+    Mutant("del-element-length-stale", ATOMS,
+           "            self._array_length = self._coord.shape[-2]\n", "", "R1.array-length", "_AtomArrayBase._del_element"),
+    Mutant("subarray-annotations-not-indexed", ATOMS,
+           "            new_object._annot[annotation] = self._annot[annotation].__getitem__(index)\n",
+           "            new_object._annot[annotation] = self._annot[annotation]\n",
+           "R1.atom-axis", "_AtomArrayBase._subarray"),
+    Mutant("subarray-bonds-not-indexed", ATOMS,
+           "            new_object._bonds = self._bonds[index]\n",
+           "            new_object._bonds = self._bonds.copy()\n",
+           "R1.atom-axis", "_AtomArrayBase._subarray"),
+    Mutant("del-element-keeps-bonds", ATOMS,
+           "            if self._bonds is not None:\n                mask = np.ones(self._bonds.get_atom_count(), dtype=bool)\n                mask[index] = False\n                self._bonds = self._bonds[mask]\n",
+           "", "R1.atom-axis", "_AtomArrayBase._del_element"),
+    Mutant("set-element-annotations-skipped", ATOMS,
+           "                for name in self._annot:\n                    self._annot[name][index] = atom._annot[name]\n",
+           "", "R1.atom-axis", "_AtomArrayBase._set_element"),
+    Mutant("stack-copy-create-one-arg", ATOMS,
+           "        return AtomArrayStack(self.stack_depth(), self.array_length())\n",
+           "        return AtomArrayStack(self.array_length())\n",
+           "R2.create-arity", "AtomArrayStack.__copy_create__"),
+    Mutant("array-copy-create-two-args", ATOMS,
+           "        return AtomArray(self.array_length())\n",
+           "        return AtomArray(1, self.array_length())\n",
+           "R2.create-arity", "AtomArray.__copy_create__"),
+    Mutant("array-fill-override-no-super", ATOMS,
+           "        return AtomArray(self.array_length())\n",
+           "        return AtomArray(self.array_length())\n\n    def __copy_fill__(self, clone):\n        clone._coord = np.copy(self._coord)\n",
+           "R2.fill-super", "AtomArray.__copy_fill__"),
+    Mutant("stack-fill-override-super-wrong-arg", ATOMS,
+           "        return AtomArrayStack(self.stack_depth(), self.array_length())\n",
+           "        return AtomArrayStack(self.stack_depth(), self.array_length())\n\n    def __copy_fill__(self, clone):\n        super().__copy_fill__(self)\n",
+           "R2.fill-super", "AtomArrayStack.__copy_fill__"),
 ]
